@@ -295,8 +295,9 @@ class WWWAuthenticate:
             # = that is not trailing, this is parameters.
             return cls(scheme, parse_dict_header(rest), None)
 
-        # No = or only trailing =, this is a token.
-        return cls(scheme, None, rest)
+        # No = or only trailing =, this is a token. A scheme without
+        # anything after it has neither a token nor parameters.
+        return cls(scheme, None, rest or None)
 
     def to_header(self) -> str:
         """Produce a ``WWW-Authenticate`` header value representing this data."""
